@@ -406,6 +406,7 @@ func init() {
 		Explanation: "Decided (structural clauses): K1 an xtype is allocated only in Universe.maketype4 and while the basic types of a universe are created (init.go); K2 in maketype4 the identity-keyed cache (a typeutil.Map, C28) is consulted with the go/types key before the allocation, the new type records that key, is added to the cache (Types.add stores it under its own gtype), and a cache hit is returned as is or completed in place; " +
 			"K3 Size/Align/FieldAlign/Bits are the reflect type's answers, AssignableTo/ConvertibleTo ask reflect and go/types with the receiver first and the argument second, Comparable and identity are go/types' on the types' gtype, the kind is derived from the cached gtype; " +
 			"K4 ArrayOf, ChanOf, MapOf, PtrTo, SliceOf build the go/types side with types.NewX and the reflect side with reflect.XOf from the same component types in the same order, through the caching MakeType; the channel direction table maps RecvDir, SendDir, BothDir to RecvOnly, SendOnly, SendRecv. " +
+			"K5s a signature rebuilt from the parameters and results of another keeps its variadic flag; K6f a struct field translated from reflect sets every field xreflect.StructField shares with reflect.StructField (the tag included); Z1 no && / || with identical operands (found F50). " +
 			"Not decided: that maketype4 never creates a second type for a cached key whose reflect type disagrees (it does, by design of its default arm), struct/func/interface/named constructors, field and method lookup, agreement with reflect on every type of the import tables.",
 		Assumptions: []string{"typeutil.Map keys by type identity (C28)", "go/types predicates implement the Go specification"},
 		Rules: []func(*Ctx){func(c *Ctx) {
@@ -419,6 +420,8 @@ func init() {
 		}},
 		Technique: "AST/type-resolved custom analysis: who-may-allocate, lookup-before-allocate-before-store order, delegation and operand-order checks",
 		Mutants: []Mutant{
+			{Name: "cloned-signature-loses-variadic", File: "xreflect/interface.go", Old: "return types.NewSignature(gsig.Recv(), gsig.Params(), gsig.Results(), gsig.Variadic())", New: "return types.NewSignature(gsig.Recv(), gsig.Params(), gsig.Results(), false)"},
+			{Name: "reflect-field-loses-tag", File: "xreflect/fromreflect.go", Old: "\t\tTag:       rfield.Tag,\n", New: ""},
 			{Name: "new-type-not-cached", File: "xreflect/type.go", Old: "\tt := wrap(xt)\n\tv.add(t)\n", New: "\tt := wrap(xt)\n", Canary: true},
 			{Name: "assignable-operands-swapped", File: "xreflect/type.go", Old: "(types.AssignableTo(t.gtype, xu.gtype) &&", New: "(types.AssignableTo(xu.gtype, t.gtype) &&", Canary: true},
 			{Name: "map-key-elem-swapped-on-reflect-side", File: "xreflect/composite.go", Old: "r.MapOf(k.approxReflectType(), e.approxReflectType())", New: "r.MapOf(e.approxReflectType(), k.approxReflectType())"},
